@@ -508,8 +508,16 @@ func (r *runner) configJSON(gen int, c cfgSpec) []byte {
 	servers := map[string]any{}
 	for i, addrs := range c.servers {
 		var listen []string
-		for _, a := range addrs {
-			listen = append(listen, r.env.listenAddr(a, gen))
+		for j, a := range addrs {
+			switch {
+			case a == rng0 && j+1 < len(addrs) && addrs[j+1] == rng1:
+				// one address spec, two sockets: a port range
+				listen = append(listen, fmt.Sprintf("tcp/127.0.0.1:%d-%d", r.env.ports[rng0], r.env.ports[rng1]))
+			case a == rng1 && j > 0 && addrs[j-1] == rng0:
+				// second socket of the range above
+			default:
+				listen = append(listen, r.env.listenAddr(a, gen))
+			}
 		}
 		servers[fmt.Sprintf("s%d", i)] = map[string]any{
 			"listen":            listen,
